@@ -136,7 +136,7 @@ extern "C" {
 }
 /// Pin the calling thread to the `idx`-th CPU this process may use, so that racing threads really run in parallel
 /// (freshly spawned threads are often placed on one CPU and then take turns). Returns false when there is only one CPU.
-fn pin_to(idx: u64) -> bool {
+pub fn pin_to(idx: u64) -> bool {
     static ALLOWED: OnceLock<Vec<usize>> = OnceLock::new();
     let allowed = ALLOWED.get_or_init(|| {
         let mut mask = [0u64; 16];
@@ -467,6 +467,15 @@ pub fn stress(a: &Args) {
         let fill_before_last_drop = rng.random_bool(0.5);
         let early_drop_original = rng.random_bool(0.5);
         let with_sampler = rng.random_bool(0.7);
+        // every fifth run builds a long backlog behind a blocked wrapped sink (tens to hundreds of accepted metrics,
+        // some of which panic or fail) before the worker sees any of it
+        let backlog = run % 5 == 4;
+        let (cap, nprod, per, gate_closed_first, slow) = if backlog {
+            ([None, Some(64), Some(200), None][((run / 5) % 4) as usize], 1 + (run / 5) % 2, 40 + 17 * ((run / 5) % 6), true, 0)
+        } else {
+            (cap, nprod, per, gate_closed_first, slow)
+        };
+        let (perr, ppanic) = if backlog { (100, 60) } else { (perr, ppanic) };
         // a few runs keep the wrapped sink blocked for more than a second after the last drop
         let stall_ms: u64 = if run % 17 == 3 || run % 17 == 11 { long_stall } else { 0 };
         let fill_before_last_drop = fill_before_last_drop || stall_ms > 0;
